@@ -7,6 +7,10 @@ import Driver.HashCmd
 import Driver.CollectCmd
 import Driver.DryCmd
 import Driver.TopCmd
+import Driver.CatalogCmd
+import Driver.ExprCmd
+import Driver.EngineCrashCmd
+import Driver.CleanCmd
 /-! `driver`: one request per line on stdin, one answer per line on stdout. -/
 namespace Driver
 
@@ -17,6 +21,10 @@ structure St where
   prov : ProvSt := {}
   hash : HashSt := {}
   collect : CollectSt := {}
+  catalog : CatalogSt := {}
+  expr : ExprSt := {}
+  crash : CrashSt := {}
+  clean : CleanSt := {}
 
 def step (st : St) (line : String) : St × String :=
   let (cmd, args) := parseLine line
@@ -44,6 +52,18 @@ def step (st : St) (line : String) : St × String :=
   else if cmd.startsWith "c10." then
     let (s, out) := dryHandle st.engine cmd args
     ({ st with engine := s }, out)
+  else if cmd.startsWith "catalog." then
+    let (s, out) := catalogHandle st.catalog cmd args
+    ({ st with catalog := s }, out)
+  else if cmd.startsWith "expr." then
+    let (s, out) := exprHandle st.expr cmd args
+    ({ st with expr := s }, out)
+  else if cmd.startsWith "crash." then
+    let (e, c, out) := crashHandle st.engine st.crash cmd args
+    ({ st with engine := e, crash := c }, out)
+  else if cmd.startsWith "clean." then
+    let (s, out) := cleanHandle st.clean cmd args
+    ({ st with clean := s }, out)
   else if cmd == "ping" then (st, "pong")
   else (st, "bad-op")
 
